@@ -769,6 +769,14 @@ func (u *Unmarshaler) processFieldWithEnvValue(fieldType reflect.Type, value ref
 		return err
 	}
 
+	if fieldType == durationType {
+		if err := fillDurationValue(fieldType, value, envVal); err != nil {
+			return fmt.Errorf("unmarshal field %q with environment variable, %w", fullName, err)
+		}
+
+		return nil
+	}
+
 	fieldKind := fieldType.Kind()
 	switch fieldKind {
 	case reflect.Bool:
@@ -778,12 +786,6 @@ func (u *Unmarshaler) processFieldWithEnvValue(fieldType reflect.Type, value ref
 		}
 
 		value.SetBool(val)
-		return nil
-	case durationType.Kind():
-		if err := fillDurationValue(fieldType, value, envVal); err != nil {
-			return fmt.Errorf("unmarshal field %q with environment variable, %w", fullName, err)
-		}
-
 		return nil
 	case reflect.String:
 		value.SetString(envVal)
